@@ -19,6 +19,17 @@ CHECKS = {
     ),
 }
 
+CHECKS["C16"] = dict(
+    technique="static: const-evaluation of every parameter of the generic pairing engine (crate config vs ark_bls12_377 config, same driver) + recomputation from first principles (CONST rule), method-override table",
+    category="other",
+    text="The exported engine is arkworks' generic Bls12<Config>; it equals the reference engine iff the parameters agree. All 21 associated constants "
+         "(about thirty limb arrays: non-residues, 26 Frobenius coefficients, curve coefficients, both generators, cofactors and inverses, x, twist type) are "
+         "evaluated by rustc for both configs and compared as canonical integers, and independently recomputed (powers of the non-residue, curve/twist "
+         "equations, r-torsion of the generators, CM cofactors, BLS12 polynomials). Exhaustive over the finite parameter set.",
+    note="Trusted: the arkworks generic pairing/tower code shared by both instantiations; the crate's Fp/Fq being the right fields is C10/C11/C17. Bilinearity and non-degeneracy are inherited, not re-proved.",
+    design="DESIGN.md §4 C16",
+)
+
 NOT_APPLICABLE = {}
 
 PENDING = {}  # property -> reason, for properties whose check is not built yet
